@@ -447,6 +447,36 @@ static bool capi_ops(const char* op) {
         puti(ok); if (ok) st(po2); return true;
     }
 
+    // decode (checked and unchecked) and re-encode what the checked decode returned
+    OP("g1_decenc") {
+        int c = (int) argi(1);
+        size_t n = c ? 48 : 96;
+        uint8_t* buf = (uint8_t*) malloc(n); unhex(arg(2), buf, n);
+        memset(&po1, 0, sizeof po1); memset(&pb1, 0, sizeof pb1);
+        bool okc = embedded_pairing_bls12_381_g1_unmarshal(CG1A(&po1), buf, c != 0, true);
+        bool oku = embedded_pairing_bls12_381_g1_unmarshal(CG1A(&pb1), buf, c != 0, false);
+        free(buf);
+        puti(okc);
+        if (okc) { uint8_t* re = (uint8_t*) malloc(n); embedded_pairing_bls12_381_g1_marshal(re, CG1A(&po1), c != 0); st(po1); put(re, n); free(re); }
+        puti(oku);
+        if (oku) st(pb1);
+        return true;
+    }
+    OP("g2_decenc") {
+        int c = (int) argi(1);
+        size_t n = c ? 96 : 192;
+        uint8_t* buf = (uint8_t*) malloc(n); unhex(arg(2), buf, n);
+        memset(&po2, 0, sizeof po2); memset(&pb2, 0, sizeof pb2);
+        bool okc = embedded_pairing_bls12_381_g2_unmarshal(CG2A(&po2), buf, c != 0, true);
+        bool oku = embedded_pairing_bls12_381_g2_unmarshal(CG2A(&pb2), buf, c != 0, false);
+        free(buf);
+        puti(okc);
+        if (okc) { uint8_t* re = (uint8_t*) malloc(n); embedded_pairing_bls12_381_g2_marshal(re, CG2A(&po2), c != 0); st(po2); put(re, n); free(re); }
+        puti(oku);
+        if (oku) st(pb2);
+        return true;
+    }
+
     // pairings
     OP("pairing") { ld(1, pa1); ld(2, pa2); embedded_pairing_bls12_381_pairing(CGT(&e), CG1A(&pa1), CG2A(&pa2)); st(e); return true; }
     OP("pairing_cpp") { ld(1, pa1); ld(2, pa2); pairing<G2Affine>(e, pa1, pa2); st(e); return true; }
@@ -491,6 +521,39 @@ static bool capi_ops(const char* op) {
         if (np == 0) putchar('-');
         for (int i = 0; i < np; i++) printf(i ? ",%zu" : "%zu", pp[i]._coeff_idx);
         free(g1s); free(g2s); free(preps); free(ap); free(pp);
+        return true;
+    }
+    OP("pairing_sc") {
+        // pairing of library-made points: P = [a]G1, Q = [b]G2 through a chosen multiplication route and a real
+        // projective->affine conversion of a non-normalised result.  Output: P Q e
+        BigInt<256> a, b; ldB(1, a); ldB(2, b);
+        int rp = (int) argi(3), rq = (int) argi(4), which = (int) argi(5);
+        G1 p; G2 q;
+        switch (rp) {
+        case 0: embedded_pairing_bls12_381_g1_multiply_affine(CG1(&p), embedded_pairing_bls12_381_g1affine_generator, CK(&a)); break;
+        case 1: p.multiply_wnaf<G1Affine, BigInt<256>, 4>(G1Affine::generator, a); break;
+        case 2: p.multiply_doubleadd(G1Affine::generator, a); break;
+        default: { G1 g; g.multiply2(G1::one); G1 t; t.add(g, G1::one); t.negate(t); t.add(t, g); t.add(t, g); /* t = G with z != 1 */
+                   embedded_pairing_bls12_381_g1_multiply(CG1(&p), CG1(&t), CK(&a)); break; }
+        }
+        switch (rq) {
+        case 0: embedded_pairing_bls12_381_g2_multiply_affine(CG2(&q), embedded_pairing_bls12_381_g2affine_generator, CK(&b)); break;
+        case 1: q.multiply_wnaf<G2Affine, BigInt<256>, 4>(G2Affine::generator, b); break;
+        case 2: q.multiply_doubleadd(G2Affine::generator, b); break;
+        default: { G2 g; g.multiply2(G2::one); G2 t; t.add(g, G2::one); t.negate(t); t.add(t, g); t.add(t, g);
+                   embedded_pairing_bls12_381_g2_multiply(CG2(&q), CG2(&t), CK(&b)); break; }
+        }
+        embedded_pairing_bls12_381_g1affine_from_projective(CG1A(&po1), CG1(&p));
+        embedded_pairing_bls12_381_g2affine_from_projective(CG2A(&po2), CG2(&q));
+        if (which == 0) embedded_pairing_bls12_381_pairing(CGT(&e), CG1A(&po1), CG2A(&po2));
+        else if (which == 1) pairing<G2Affine>(e, po1, po2);
+        else {
+            G2Prepared* prep = (G2Prepared*) malloc(sizeof(G2Prepared));
+            embedded_pairing_bls12_381_g2prepared_prepare((embedded_pairing_bls12_381_g2prepared_t*) prep, CG2A(&po2));
+            embedded_pairing_bls12_381_prepared_pairing(CGT(&e), CG1A(&po1), (embedded_pairing_bls12_381_g2prepared_t*) prep);
+            free(prep);
+        }
+        st(po1); st(po2); st(e); puti(p.is_normalized()); puti(q.is_normalized());
         return true;
     }
     OP("consts") {
